@@ -20,7 +20,7 @@ CHECKS = {
    text="Every listed fallible API is called over explicit finite argument pools (strings, label lists/maps of every cardinality class, f64 bucket lists/parameters, registry histories, families of every MetricType incl. mismatched payloads, failing writers); each call must return, and documented-invalid input must give Err.",
    note="memory-exhausting sizes excluded; APIs documented to panic excluded", ref="6 C17"),
  "C06": dict(engine="statespace+vsched", technique="explicit-state BFS (stateright) to a fixpoint over register/unregister histories re-executed on the real Registry vs. reference registry; plus exhaustive interleavings (vsched) of concurrent register/unregister/gather with a linearizability check",
-   text="All histories of register/unregister over an 8 (thorough 11) collector pool with overlapping names/help/const/variable labels and multi-descriptor collectors are explored to a fixpoint (state = real registry dump + reference state); every call's result class and gather() after every call are compared with the reference; tracelessness of failed calls is judged behaviourally by exploring every continuation. In addition 2-3 threads issue register/unregister/gather concurrently on one registry under the vsched scheduler (all program pairs of <=2 calls and all 1-call triples); every interleaving must be linearizable w.r.t. the same reference.",
+   text="All histories of register/unregister over an 8 (thorough 11) collector pool with overlapping names/help/const/variable labels and multi-descriptor collectors are explored to a fixpoint (state = real registry dump + reference state); every call's result class and gather() after every call are compared with the reference; tracelessness of failed calls is judged behaviourally by exploring every continuation. In addition 2-3 threads issue register/unregister/gather concurrently on one registry under the vsched scheduler (all program pairs of <=2 calls and all 1-call triples); every interleaving must be linearizable w.r.t. the same reference. Two further BFS runs start from non-initial states: a registry holding 24 collectors (operations over the collectors with the smallest/largest/median descriptor id, an overlapping two-descriptor collector and a fresh one), and the same registry after a wave of 9000 (thorough 40000) registrations that were all undone.",
    note="collector pool is fixed; collisions of 64-bit ids and disagreement inside one collector's own descriptor list are not judged", ref="6 C06, 13"),
  "C12": dict(engine="statespace", technique="exhaustive enumeration of operation histories (stateright BFS, no state merging) on real local metrics vs. pending/flushed ledger; deeper merged-state BFS in addition",
    text="Every history up to depth 5 (vector models 4; thorough 6/5) over the operation menus of six local-metric models (incl. drop during unwinding, negative observations, clone, remove) is replayed on fresh real objects and compared with a ledger after every step; a second BFS merges equal ledger states and reaches depth 7.",
@@ -41,7 +41,7 @@ CHECKS = {
    text="Drivers with >=3 collections, 1-2 collector threads, direct observers, local-batch flushers and get_sample_* readers are run on every interleaving (Mode U / preemption bound as C02): snapshots ordered in real time grow, a batch is in a snapshot entirely or not at all, the quiescent snapshot and get_sample_count/sum describe exactly all observations, no deadlock/livelock (also in the quiescent reads, which run under the scheduler), and a collector that spins does so only while an observe/flush call is in flight; NaN-observation drivers are judged by counts and termination.",
    note="SC interleavings; <=4 threads; Mode B drivers hold up to the stated preemption bound", ref="6 C03"),
  "C10": dict(engine="vsched+statespace", technique="stateless exhaustive exploration of thread interleavings of the real vector (sleep sets / preemption bound) + Wing-Gong linearizability vs. map-of-children spec; exhaustive enumeration of sequential histories (stateright BFS)",
-   text="(E1) all program pairs (<=2 ops, quick: total length <=3) all triples of 1-call programs and five 3-thread drivers over {get-or-create+update, remove, reset, collect, update through a kept handle} on 3 vector flavours (list and map request forms mixed) from 3 start states, on every interleaving of lock/atomic/call-boundary steps; histories incl. a quiescent collect must be linearizable w.r.t. a map key->child, child values decoded per child with interval semantics. (E2) every sequential history up to depth 5 (thorough 6) replayed against the reference after each step.",
+   text="(E1) all program pairs (<=2 ops, quick: total length <=3) all triples of 1-call programs and five 3-thread drivers over {get-or-create+update, remove, reset, collect, update through a kept handle} on 3 vector flavours (list and map request forms mixed) from 3 start states, on every interleaving of lock/atomic/call-boundary steps; histories incl. a quiescent collect must be linearizable w.r.t. a map key->child, child values decoded per child with interval semantics and a membership that stands still between a collection's snapshot instant and every update it shows; large-vector drivers (3..64 pre-existing children around powers of two, each to be shown exactly once with exact update accounting) and a churn driver (one collect against create/remove/create/update-old-child). (E2) every sequential history up to depth 5 (thorough 6) replayed against the reference after each step.",
    note="SC interleavings; 2 keys, <=3 threads; 3-thread HistogramVec drivers bounded to 2 preemptions in the quick tier", ref="6 C10"),
  "C07": dict(engine="enum", technique="bounded-exhaustive enumeration of collector subsets x registration orders x all hash-map iteration orders (realised, not sampled) x registry configs on the real Registry vs. reference gather",
    text="All subsets (size <=3, thorough 4) of a 16-collector pool of library metric types (incl. an empty vector, sibling vectors under one name, a name colliding with the registry prefix, equal-help collectors of different kinds, a 70-child family with prefix-related label values), every registration order, every registry-internal collect order (observed through a spy collector; registries rebuilt until all m! orders were seen), every iteration order of the common-label map and 6 registry configurations: each gather() equals the reference gather, also after one collector has been unregistered again, and all results for one registered set are identical.",
